@@ -76,7 +76,9 @@ Definition route_ok (sh : shape) (r : route) : bool := public r || authenticated
 (* routes of today's table that act without authentication *)
 Definition open_routes (sh : shape) (rs : list route) : list route := filter (fun r => negb (route_ok sh r)) rs.
 
-(* Known defects (known_findings C19-failpoint-public, C19-runtime-config-public): exact method and pattern. *)
+(* Defects repaired in the repository (C19-failpoint-public 8b29366, C19-runtime-config-public bbb5325): exact method and
+   pattern. Only Refuted.v (frozen constants of the old tree) still uses this and `repair_route`; the theorems over the
+   table translated in a run exempt NO route. *)
 Definition known_open_route (r : route) : bool :=
   (String.eqb (r_method r) "POST" && String.eqb (r_pattern r) "/failpoint")
   || (String.eqb (r_method r) "GET" && String.eqb (r_pattern r) "/runtime_config").
@@ -93,6 +95,14 @@ Definition known_prefix (p : prefix_rule) : bool :=
   (String.eqb (p_prefix p) "/debug/pprof" || String.eqb (p_prefix p) "/debug/vars" || String.eqb (p_prefix p) "/debug/query").
 Definition repair_prefixes (ps : list prefix_rule) : list prefix_rule := filter (fun p => negb (known_prefix p)) ps.
 
+(* An exemption is in force only while its finding is OPEN in known_findings.json: `open` is the list of open finding
+   ids written into Gen_Routes.v by run.py in every run. Once a finding is marked fixed its exemption is gone and a
+   re-appearance breaks the obligation. *)
+Definition mem (x : string) (l : list string) : bool := existsb (String.eqb x) l.
+Definition exempt_prefix (open : list string) (p : prefix_rule) : bool := mem "C19-debug-public" open && known_prefix p.
+Definition unexempt_prefixes (open : list string) (ps : list prefix_rule) : list prefix_rule :=
+  filter (fun p => negb (exempt_prefix open p)) ps.
+
 Definition shape_ok (sh : shape) : bool :=
   match wrap_for (s_rules sh) SigUser None with
   | Some w => match w_wrap w with WrapAuth => String.eqb (w_flag w) auth_flag | _ => false end
@@ -101,14 +111,56 @@ Definition shape_ok (sh : shape) : bool :=
   && N.eqb (s_replaced sh) 0 && s_registers sh && N.eqb (s_direct_mux sh) 0
   && s_else_is_mux sh && N.eqb (s_mux_calls sh) 1 && N.eqb (s_problems sh) 0.
 
-(* Known defects C19-create-tsdb-unprivileged, C19-logstore-unprivileged, C19-logstore-data-unprivileged: handlers with the
-   authenticated signature that never look at the user. serveFluxQuery (POST /api/v2/query) only answers an error. *)
-Definition known_ignoring (mp : string * string) : bool :=
-  let (m, p) := mp in
-  (String.eqb m "POST" && String.eqb p "/api/v2/query")
-  || (String.eqb m "POST" && String.eqb p "/api/v1/tsdb/{tsdb}")
-  || String.prefix "/api/v1/repository" p || String.prefix "/api/v1/logstream/" p
-  || String.prefix "/repo/{repository}/logstreams/{logStream}/" p.
+(* ---- handler facts: the authorization decisions the user argument of a handler reaches (translated per run) ---- *)
+Record hguard := mk_hguard { g_method : string; g_pattern : string; g_guards : list string }.
+
+(* Routes for which authentication alone is what the statement asks: they name no database and perform no action
+   (serveFluxQuery only answers "not implemented"; /runtime_config reads the limits configuration). *)
+Definition auth_only_ok (m p : string) : bool :=
+  (String.eqb m "POST" && String.eqb p "/api/v2/query") || (String.eqb m "GET" && String.eqb p "/runtime_config").
+Definition is_dataplane (p : string) : bool := String.prefix "/repo/{repository}/logstreams/{logStream}/" p.
+(* Known defect C19-logstore-data-unprivileged (log-store data plane), in force only while open *)
+Definition guard_exempt (open : list string) (g : hguard) : bool :=
+  auth_only_ok (g_method g) (g_pattern g) || (mem "C19-logstore-data-unprivileged" open && is_dataplane (g_pattern g)).
+Definition decides (g : hguard) : bool :=
+  match g_guards g with [] => false | _ => negb (mem "?" (g_guards g)) end.
+Definition guard_ok (open : list string) (g : hguard) : bool := decides g || guard_exempt open g.
+Definition unguarded (open : list string) (gs : list hguard) : list hguard := filter (fun g => negb (guard_ok open g)) gs.
+
+Fixpoint list_eqb {A} (eqb : A -> A -> bool) (a b : list A) : bool :=
+  match a, b with
+  | [], [] => true
+  | x :: a', y :: b' => eqb x y && list_eqb eqb a' b'
+  | _, _ => false
+  end.
+
+(* What the statement implies for the routes it names by their function: catalogue changes and server control are for the
+   administrator; the log-store listings ask for read or write on the repository; the write endpoints go through the
+   write authorizer, the query endpoint through the statement authorizer. (method, pattern, decisions) *)
+Definition g_admin : list string := ["admin"].
+Definition g_see : list string := ["db:ReadPrivilege"; "db:WritePrivilege"].
+Definition expected_guards : list hguard := [
+  mk_hguard "POST" "/debug/ctrl" g_admin; mk_hguard "POST" "/backup/run" g_admin; mk_hguard "POST" "/backup/abort" g_admin;
+  mk_hguard "POST" "/backup/status" g_admin; mk_hguard "POST" "/failpoint" g_admin; mk_hguard "POST" "/api/v1/tsdb/{tsdb}" g_admin;
+  mk_hguard "POST" "/api/v1/repository/{repository}" g_admin; mk_hguard "PUT" "/api/v1/repository/{repository}" g_admin;
+  mk_hguard "DELETE" "/api/v1/repository/{repository}" g_admin;
+  mk_hguard "POST" "/api/v1/logstream/{repository}/{logStream}" g_admin; mk_hguard "PUT" "/api/v1/logstream/{repository}/{logStream}" g_admin;
+  mk_hguard "DELETE" "/api/v1/logstream/{repository}/{logStream}" g_admin;
+  mk_hguard "GET" "/api/v1/repository" g_see; mk_hguard "GET" "/api/v1/repository/{repository}" g_see;
+  mk_hguard "GET" "/api/v1/logstream/{repository}" g_see; mk_hguard "GET" "/api/v1/logstream/{repository}/{logStream}" g_see;
+  mk_hguard "POST" "/write" ["write"]; mk_hguard "POST" "/api/v2/write" ["write"]; mk_hguard "POST" "/api/v1/write" ["write"];
+  mk_hguard "GET" "/query" ["query"]; mk_hguard "POST" "/query" ["query"] ].
+Fixpoint find_guard (gs : list hguard) (m p : string) : option hguard :=
+  match gs with
+  | [] => None
+  | g :: r => if String.eqb (g_method g) m && String.eqb (g_pattern g) p then Some g else find_guard r m p
+  end.
+(* a named route that is registered makes exactly the expected decisions (a route that is not registered asks nothing) *)
+Definition expected_ok (gs : list hguard) (e : hguard) : bool :=
+  match find_guard gs (g_method e) (g_pattern e) with
+  | Some g => list_eqb String.eqb (g_guards g) (g_guards e)
+  | None => true
+  end.
 
 (* dispatch of a request path by Handler.ServeHTTP: the first prefix rule that matches wins, else the mux *)
 Definition guard_on (enabled_guards : list string) (p : prefix_rule) : bool :=
@@ -124,7 +176,6 @@ Record cred_facts := mk_cred_facts {
   cf_declared : list string; cf_produced : list string; cf_handled : list string;
   cf_has_default : bool; cf_default_returns : bool }.
 
-Definition mem (x : string) (l : list string) : bool := existsb (String.eqb x) l.
 (* every method ParseCredentials can produce has its own arm in authenticate (or the default arm returns) *)
 Definition cred_facts_ok (c : cred_facts) : bool :=
   cf_default_returns c || forallb (fun m => mem m (cf_handled c)) (cf_produced c).
@@ -154,7 +205,10 @@ Definition priv_clear (p q : priv) : priv :=
   | AllPriv, ReadPriv => WritePriv | AllPriv, WritePriv => ReadPriv
   end.
 
-Record user := mk_user { u_name : string; u_pass : string; u_admin : bool; u_privs : list (string * priv) }.
+(* u_rw: UserInfo.Rwuser - the "partition privileges" account class (CREATE USER .. WITH PARTITION PRIVILEGES, a statement
+   only an administrator or another such account may run): it passes every per-database check, is never an
+   administrator for AuthorizeUnrestricted, and has its own statement rules (AuthorizeQueryForRwUser). *)
+Record user := mk_user { u_name : string; u_pass : string; u_admin : bool; u_rw : bool; u_privs : list (string * priv) }.
 
 Fixpoint lookup {A} (l : list (string * A)) (k : string) : option A :=
   match l with
@@ -174,9 +228,9 @@ Fixpoint find_user (us : list user) (n : string) : option user :=
   end.
 Definition admin_exists (us : list user) : bool := existsb u_admin us.
 
-(* UserInfo.AuthorizeDatabase (rwuser accounts are outside the model) *)
+(* UserInfo.AuthorizeDatabase *)
 Definition authorize_database (u : user) (p : priv) (d : string) : bool :=
-  u_admin u || priv_eqb p NoPriv ||
+  u_admin u || u_rw u || priv_eqb p NoPriv ||
   match lookup (u_privs u) d with
   | Some q => priv_eqb q p || priv_eqb q AllPriv
   | None => false
@@ -184,7 +238,7 @@ Definition authorize_database (u : user) (p : priv) (d : string) : bool :=
 
 (* Data.SetPrivilege / statement executor GRANT and REVOKE *)
 Definition set_priv_user (u : user) (d : string) (p : priv) : user :=
-  mk_user (u_name u) (u_pass u) (u_admin u) (set_key (u_privs u) d p).
+  mk_user (u_name u) (u_pass u) (u_admin u) (u_rw u) (set_key (u_privs u) d p).
 Fixpoint set_privilege (us : list user) (n d : string) (p : priv) : list user :=
   match us with
   | [] => []
@@ -199,17 +253,38 @@ Definition user_priv (us : list user) (n d : string) : priv :=
 Definition revoke (us : list user) (n d : string) (p : priv) : list user :=
   set_privilege us n d (match p with AllPriv => NoPriv | _ => priv_clear (user_priv us n d) p end).
 
-(* one entry of a statement's RequiredPrivileges: admin, or privilege p on database d ("" = the request's db) *)
-Inductive reqpriv := RAdmin | RDb (d : string) (p : priv).
+(* one entry of a statement's RequiredPrivileges: Admin (RAdmin: Rwuser false, RAdminRw: Rwuser true), or privilege p on
+   database d ("" = the request's db; every such entry of the source carries Rwuser: true). RRwAllow / RRwDeny are not
+   entries of the source list: they mark the statement INSTANCES that AuthorizeQueryForRwUser lets through (`continue`)
+   or refuses before it looks at the list; they mean nothing for other users. *)
+Inductive reqpriv := RAdmin | RAdminRw | RDb (d : string) (p : priv) | RRwAllow | RRwDeny.
 Definition stmt := list reqpriv.
 
 Definition target_db (d dflt : string) : string := if String.eqb d "" then dflt else d.
 
-(* UserInfo.AuthorizeQuery for a non-rwuser *)
+Definition is_rwallow (rp : reqpriv) : bool := match rp with RRwAllow => true | _ => false end.
+Definition is_rwdeny (rp : reqpriv) : bool := match rp with RRwDeny => true | _ => false end.
+(* UserInfo.AuthorizeQuery, ordinary user: every entry must hold, an Admin entry never does *)
+Definition authorize_stmt_plain (u : user) (db : string) (s : stmt) : bool :=
+  forallb (fun rp => match rp with
+                     | RAdmin | RAdminRw => false
+                     | RDb d p => authorize_database u p (target_db d db)
+                     | RRwAllow | RRwDeny => true
+                     end) s.
+(* UserInfo.AuthorizeQueryForRwUser: the statement cases first, then every entry must carry Rwuser: true *)
+Definition authorize_stmt_rw (s : stmt) : bool :=
+  if existsb is_rwallow s then true
+  else if existsb is_rwdeny s then false
+  else forallb (fun rp => match rp with RAdmin => false | _ => true end) s.
 Definition authorize_stmt (u : user) (db : string) (s : stmt) : bool :=
-  forallb (fun rp => match rp with RAdmin => false | RDb d p => authorize_database u p (target_db d db) end) s.
+  if u_rw u then authorize_stmt_rw s else authorize_stmt_plain u db s.
 Definition authorize_query (u : user) (db : string) (q : list stmt) : bool :=
   u_admin u || forallb (authorize_stmt u db) q.
+
+(* handler.go canSeeRepository / requireRepositoryRead: read or write on the repository, the rule SHOW DATABASES follows *)
+Definition can_see (u : user) (d : string) : bool := authorize_database u ReadPriv d || authorize_database u WritePriv d.
+(* serveListRepository: the catalogue's repositories (dbs: not marked deleted, in the order listed) the user can see *)
+Definition visible_repositories (u : user) (dbs : list string) : list string := filter (can_see u) dbs.
 
 (* ---- credentials as they arrive ---- *)
 Record token := mk_token {
@@ -293,13 +368,16 @@ Inductive rkind :=
 | KPublic                       (* ping / status / options: answers 204, touches nothing *)
 | KQuery (q : list stmt)        (* serveQuery and the other handlers that go through AuthorizeQuery *)
 | KWrite                        (* serveWrite and the other handlers that go through AuthorizeWrite on the request's db *)
-| KAdminOnly                    (* /debug/ctrl, /backup/...: AuthorizeUnrestricted *)
+| KAdminOnly                    (* /debug/ctrl, /backup/..., requireAdmin: AuthorizeUnrestricted *)
+| KRepoSee                      (* requireRepositoryRead on the repository named by the request (rq_db) *)
+| KListRepos (dbs : list string) (* serveListRepository over a catalogue holding the repositories dbs *)
 | KOpaque.                      (* handler whose own checks are not modelled; only the authentication wrapper is *)
 
 Inductive effect :=
 | EffQuery (db : string) (q : list stmt)    (* the statements were executed *)
 | EffWrite (db : string)
 | EffControl
+| EffList (l : list string)                 (* a listing with exactly these entries was returned *)
 | EffHandler.                               (* the handler body ran *)
 
 Record request := mk_request { rq_creds : creds_in; rq_db : string }.
@@ -326,6 +404,18 @@ Definition inner (cfg : config) (k : rkind) (rq : request) (u : option user) : N
            | None => (403, [])
            | Some usr => if u_admin usr then (200, [EffControl]) else (403, [])
            end
+  | KRepoSee =>
+      if negb (auth_enabled cfg) then (200, [EffHandler])
+      else match u with
+           | None => (403, [])
+           | Some usr => if can_see usr (rq_db rq) then (200, [EffHandler]) else (403, [])
+           end
+  | KListRepos dbs =>
+      if negb (auth_enabled cfg) then (200, [EffList dbs])
+      else match u with
+           | None => (200, [EffList []])
+           | Some usr => (200, [EffList (visible_repositories usr dbs)])
+           end
   end.
 
 (* a plain-signature handler never sees a user: whatever it does, it does for everybody *)
@@ -335,6 +425,8 @@ Definition inner_plain (k : rkind) (rq : request) : N * list effect :=
   | KQuery q => (200, [EffQuery (rq_db rq) q])
   | KWrite => (204, [EffWrite (rq_db rq)])
   | KAdminOnly => (200, [EffControl])
+  | KRepoSee => (200, [EffHandler])
+  | KListRepos dbs => (200, [EffList dbs])
   | KOpaque => (200, [EffHandler])
   end.
 
@@ -356,6 +448,7 @@ Definition serve (sh : shape) (cfg : config) (us : list user) (r : route) (k : r
    Gen_Privileges.v and frozen by hand in Privileges.v) *)
 Record pentry := mk_pentry {
   pe_admin : bool;         (* Admin: true *)
+  pe_rwuser : bool;        (* Rwuser: true *)
   pe_name : string;        (* "" = the request's db; otherwise the Go expression naming the database *)
   pe_priv : string;        (* name of the influxql constant *)
   pe_cond : string }.      (* enclosing conditions, "" = unconditional *)
@@ -363,14 +456,8 @@ Record stmt_priv := mk_stmt_priv {
   sp_type : string; sp_simple : bool; sp_entries : list pentry; sp_calls : list string }.
 
 Definition pentry_eqb (a b : pentry) : bool :=
-  Bool.eqb (pe_admin a) (pe_admin b) && String.eqb (pe_name a) (pe_name b) && String.eqb (pe_priv a) (pe_priv b)
+  Bool.eqb (pe_admin a) (pe_admin b) && Bool.eqb (pe_rwuser a) (pe_rwuser b) && String.eqb (pe_name a) (pe_name b) && String.eqb (pe_priv a) (pe_priv b)
   && String.eqb (pe_cond a) (pe_cond b).
-Fixpoint list_eqb {A} (eqb : A -> A -> bool) (a b : list A) : bool :=
-  match a, b with
-  | [], [] => true
-  | x :: a', y :: b' => eqb x y && list_eqb eqb a' b'
-  | _, _ => false
-  end.
 Definition stmt_priv_eqb (a b : stmt_priv) : bool :=
   String.eqb (sp_type a) (sp_type b) && Bool.eqb (sp_simple a) (sp_simple b)
   && list_eqb pentry_eqb (sp_entries a) (sp_entries b) && list_eqb String.eqb (sp_calls a) (sp_calls b).
@@ -385,7 +472,8 @@ Definition priv_of_name (s : string) : option priv :=
 (* meaning of one unconditional entry for a statement whose own database field holds stmt_db *)
 Definition req_of_entry (stmt_db : string) (e : pentry) : option reqpriv :=
   if negb (String.eqb (pe_cond e) "") then None
-  else if pe_admin e then Some RAdmin
+  else if pe_admin e then Some (if pe_rwuser e then RAdminRw else RAdmin)
+  else if negb (pe_rwuser e) then None      (* RDb stands for an entry with Rwuser: true; anything else is not modelled *)
   else match priv_of_name (pe_priv e) with
        | None => None
        | Some p => if String.eqb (pe_name e) "" then Some (RDb "" p)
@@ -411,6 +499,34 @@ Definition required_of (tbl : list stmt_priv) (ty stmt_db : string) : option stm
   | Some sp => if sp_simple sp then req_of_entries stmt_db (sp_entries sp) else None
   | None => None
   end.
+(* ---- the statement cases of AuthorizeQueryForRwUser (translated in Gen_Privileges.v, frozen in Privileges.v) ---- *)
+Record rwrule := mk_rwrule { rw_type : string; rw_action : string }.
+Definition rwrule_eqb (a b : rwrule) : bool := String.eqb (rw_type a) (rw_type b) && String.eqb (rw_action a) (rw_action b).
+Fixpoint find_rwrule (rules : list rwrule) (ty : string) : option string :=
+  match rules with
+  | [] => None
+  | r :: rest => if String.eqb (rw_type r) ty then Some (rw_action r) else find_rwrule rest ty
+  end.
+(* what an arm means for an instance of the statement type. `special`: the instance names the account "rwuser" (DROP USER,
+   SET PASSWORD, by an account that is not itself called "rwuser") or the database "_internal" (DROP DATABASE).
+   An arm whose text is not one of the known ones means nothing here (no marker), so that a changed arm shows as a
+   disagreement with the running server and as a broken table equality. *)
+Definition rw_marker (rules : list rwrule) (ty : string) (special : bool) : list reqpriv :=
+  match find_rwrule rules ty with
+  | None => []
+  | Some a =>
+      if String.eqb a "continue" then [RRwAllow]
+      else if String.eqb a "if stmtType.Admin == true { set stmtType.Admin = false }; continue" then [RRwAllow]
+      else if String.eqb a "if stmtType.Name != ""rwuser"" { continue }" then (if special then [] else [RRwAllow])
+      else if String.eqb a "if u.Name != ""rwuser"" && stmtType.Name == ""rwuser"" { refuse }; continue"
+           then (if special then [RRwDeny] else [RRwAllow])
+      else if String.eqb a "if stmtType.Name == ""_internal"" { refuse }" then (if special then [RRwDeny] else [])
+      else []
+  end.
+(* after the arms: every entry of RequiredPrivileges must carry Rwuser: true *)
+Definition rw_tail_expected : string :=
+  "set privs, err := stmt.RequiredPrivileges(); if err != nil { return return err }; range privs { if !p.Rwuser { refuse } }".
+
 (* Sources.RequiredPrivileges: read on the database of every measurement; SELECT adds write on the target's database;
    CREATE CONTINUOUS QUERY: read on its database and write on the target's if that names a database *)
 Definition sources_req (dbs : list string) : stmt := map (fun d => RDb d ReadPriv) dbs.
